@@ -150,6 +150,42 @@ func c11Vars(d *adoc.Doc) []VarSpec {
 	}
 }
 
+// c11Reserved: prefixes and local names that spell axis names / node types.
+func c11ReservedDocs() []*adoc.Doc {
+	names := []string{"a", "child", "self", "text", "descendant", "node"}
+	var docs []*adoc.Doc
+	for rot := 0; rot < 2; rot++ {
+		d := adoc.NewDoc()
+		r := adoc.E("r")
+		for i, n := range names {
+			uri := []string{adoc.URI_U, adoc.URI_V, ""}[(i+rot)%3]
+			e := adoc.ENS(uri, "", n, adoc.T(fmt.Sprint(i)))
+			e.Add(adoc.ANS(adoc.URI_U, "", names[(i+1)%len(names)], "x"))
+			r.Add(e)
+			// the same local name in the other namespace
+			r.Add(adoc.ENS([]string{adoc.URI_V, adoc.URI_U, adoc.URI_U}[(i+rot)%3], "", n))
+		}
+		d.Root.Add(r)
+		docs = append(docs, d.Finish())
+	}
+	return docs
+}
+
+func c11ReservedExprs() []string {
+	prefixes := []string{"p", "self", "child", "text", "descendant"}
+	locals := []string{"a", "child", "self", "text", "descendant", "node", "*"}
+	var out []string
+	for _, p := range prefixes {
+		for _, l := range locals {
+			out = append(out, "//"+p+":"+l, "/r/"+p+":"+l, "//@"+p+":"+l, "//*[self::"+p+":"+l+"]", "count(//"+p+":"+l+")")
+		}
+	}
+	for _, l := range locals[:6] {
+		out = append(out, "//*:"+l, "//@*:"+l, "//"+l)
+	}
+	return out
+}
+
 func c11Logs(d *adoc.Doc, ctx *adoc.Node, e refExpr, got, want Outcome, env EnvSpec) string {
 	if env.rec == nil {
 		return ""
@@ -203,6 +239,23 @@ func C11(c *run.Check) {
 		r.extra = c11Logs
 		ctxOK := func(nd *adoc.Node) bool { return nd.Kind == adoc.Root || (ei%3 == 2 && nd.Kind == adoc.Elem) }
 		r.runGrid(len(jobs), func(i int) *adoc.Doc { return adoc.Instantiate(jobs[i].f, jobs[i].deco) }, exprs, ctxOK)
+	}
+	// prefixes and local names spelled like axis names / node types
+	{
+		rd := c11ReservedDocs()
+		re := mustParse(c11ReservedExprs())
+		for _, e := range re {
+			if e.Err != nil {
+				fmt.Println("harness: reference parser rejects", e.Text, e.Err)
+			}
+		}
+		for _, m := range []map[string]string{
+			{"p": adoc.URI_U, "self": adoc.URI_U, "child": adoc.URI_V, "text": adoc.URI_U, "descendant": adoc.URI_V},
+			{"p": adoc.URI_V, "self": adoc.URI_V, "child": adoc.URI_U, "text": adoc.URI_V, "descendant": adoc.URI_U},
+		} {
+			r := newXRunner(c, "C11", EnvSpec{NS: m})
+			r.runGrid(len(rd), func(i int) *adoc.Doc { return rd[i].Clone().Finish() }, re, func(nd *adoc.Node) bool { return nd.Kind == adoc.Root })
+		}
 	}
 	c.Sample(map[string]interface{}{"doc": adoc.Instantiate(jobs[len(jobs)-3].f, adoc.D3).String(), "expr": "//*[f(position(), last())]", "bindings": envs[5]})
 	c.Sample(map[string]interface{}{"doc": adoc.Instantiate(jobs[len(jobs)/2].f, adoc.D2).String(), "expr": "//@p:x", "bindings": envs[12]})
